@@ -113,7 +113,9 @@ SECTION_PROPS = {
     "rewrite": ["C03", "C04", "C06", "C13"],
     "v1": ["C01", "C06", "C13", "C20"],
     "vcs": ["C10", "C12"],
-    "config": ["C03", "C18", "C19"],
+    "config_pick": ["C19"],
+    "config_bool": ["C18"],
+    "config_templates": ["C19"],
     "config_init": ["C19"],
     "order_cli_update": ["C01", "C09", "C10", "C13"],
     "order_cli__update": ["C06", "C10", "C11"],
